@@ -77,6 +77,8 @@ class Ctx:
     def nontrivial(self, ident=None):
         """Mark the current case (or a sub-case ``ident``) as a distinct non-trivial evaluation."""
         base = canon([self.cur[0], self.cur[1]]) if ident is None else canon([self.cur[0], ident])
+        if ident is not None:
+            self.evaluations += 1
         self.distinct.add(h64(base))
 
     def seen(self, tag, obj):
